@@ -28,7 +28,7 @@ def gen_case(r, idx, tmpdir):
         # unchanged); soft-stop + one zero-speed command per train exceed 48 bytes, the last ones wait for the first answers
         used = {(t["addrl"], t["addrh"]) for t in cfg["trains"]}
         while len(cfg["trains"]) < 7 + idx % 3:
-            a = (r.range(1, 250), r.range(0, 0x27))
+            a = (r.range(1, 250), r.range(0x10, 0x27))      # above the small addresses simgen hands out to accessories and trains
             if a in used: continue
             used.add(a); cfg["trains"].append({"addrl": a[0], "addrh": a[1], "steps": r.choice([14, 28, 126]), "periphs": []})
     nb = len(cfg["boards"])
